@@ -155,7 +155,7 @@ prop("C12",
 
 prop("C11",
      specgen=(30, 1000),
-     scripts=lambda tier, rnd: S.inbound_drop() + S.cease_subcodes() + S.dial_params() + [x for x in S.collision() if "keptdies" in x["tags"]] + (S.pacing() if tier == "thorough" else sample(S.pacing(), rnd, 70)),
+     scripts=lambda tier, rnd: S.inbound_drop() + S.cease_subcodes() + S.dial_params() + [x for x in S.collision() if "keptdies" in x["tags"] or "afterin" in x["tags"]] + [x for x in S.pacing() if "refuse-long" in x["id"]] + (S.pacing() if tier == "thorough" else sample(S.pacing(), rnd, 70)),
      mc=lambda tier: [mc_pair(["openLo", "ka", "cease"], conns=1, msgs=3, dials=3), mc_timed(10, 1, 3, False, ("open3", "ka", "cease")),
                       mc_timed(9, 2, 2, False, ("open3", "cease")), mc_timed(12, 2, 3, True, ("open3", "ka", "cease")), mc_live_in()] if tier == "quick" else
      [mc_pair(["openLo", "ka", "cease"], conns=2, msgs=2, dials=3), mc_timed(14, 2, 3, False, ("open3", "ka", "notif")),
